@@ -75,7 +75,7 @@ func (r *Run) foreignCountersign(t *tape.Tape, parent *ForeignParent, depth int,
 			tbs := refcose.CountersignStructures(parent.Kind, false, parent.Prot, fl.ProtContent, ext, parent.Payload, parent.Sig)[0]
 			sig := foreignSign(key, tbs, ent)
 			node := &CsigNode{Label: label, Index: i, Key: key, External: ext}
-			if depth > 1 && t.Bool(1, 3, "fcsig.nest") {
+			if depth > 1 && (t.Bool(1, 3, "fcsig.nest") || depth > 3) {
 				child, cn := r.foreignCountersign(t, &ForeignParent{Kind: refcose.PCountersignature, Prot: fl.ProtContent, Payload: sig}, depth-1, k, ent, withAbbrev)
 				fl.Unprot.Elems = append(fl.Unprot.Elems, child.Elems...)
 				node.Children = cn
